@@ -364,6 +364,58 @@ def runLoop (cycle : Skel → Skel) (maxCycles : Option Nat) : Nat → Nat → S
       | none => false) || s'.junctionCount == s.junctionCount
     if stop then some s' else runLoop cycle maxCycles fuel (iter + 1) s'
 
+/-! ### the traversal of `_Skeletonize.run`, with everything it takes from dict / networkx iteration order as a parameter -/
+
+/-- the orders the traversal depends on besides the network itself -/
+structure Order where
+  /-- `self.wn.junction_name_list` at the start of a pass -/
+  juncs : Skel → List String
+  /-- `list(nx.neighbors(self.G, j))` -/
+  nbrs : Skel → String → List String
+  /-- `list(self.G.adj[j][n].keys())` -/
+  pipes : Skel → String → String → List String
+
+/-- `itertools.combinations(names, 2)` -/
+def combos : List String → List (String × String)
+  | [] => []
+  | a :: t => t.map (fun b => (a, b)) ++ combos t
+
+/-- `branch_trim`: one pass over the junctions -/
+def trimPass (thr : Rat) (o : Order) (s : Skel) : Skel := (o.juncs s).foldl (fun s j => branchTrim s j thr) s
+
+/-- `series_pipe_merge`: `neighbors[0]`, `neighbors[1]` are taken in networkx order -/
+def seriesPass (thr : Rat) (o : Order) (s : Skel) : Skel :=
+  (o.juncs s).foldl (fun s j => match o.nbrs s j with
+    | [n0, n1] => seriesMerge s j n0 n1 thr
+    | _ => s) s
+
+/-- `parallel_pipe_merge`: neighbours listed when the junction is visited, edge keys when the neighbour is visited -/
+def parallelPass (thr : Rat) (o : Order) (s : Skel) : Skel :=
+  (o.juncs s).foldl (fun s j =>
+    (o.nbrs s j).foldl (fun s' n =>
+      (combos (o.pipes s' j n)).foldl (fun s'' pq => parallelMerge s'' j n pq.1 pq.2 thr) s') s) s
+
+/-- one cycle of `run` -/
+def cyclePass (thr : Rat) (o : Order) (bt sm pm : Bool) (s : Skel) : Skel :=
+  let s := if bt then trimPass thr o s else s
+  let s := if sm then seriesPass thr o s else s
+  if pm then parallelPass thr o s else s
+
+/-- `_Skeletonize.run` -/
+def skeletonizeRun (thr : Rat) (o : Order) (bt sm pm : Bool) (maxCycles : Option Nat) (s : Skel) : Option Skel :=
+  runLoop (cyclePass thr o bt sm pm) maxCycles (s.junctionCount + 1) 0 s
+
+/-- two concrete orders: model order, and every list reversed -/
+def Order.natural : Order :=
+  { juncs := fun s => (s.nodes.filter (fun n => n.kind == .junction)).map (·.name),
+    nbrs := fun s j => s.neighbors j,
+    pipes := fun s j n => (s.between j n).map (·.name) }
+
+def Order.reversed : Order :=
+  { juncs := fun s => (Order.natural.juncs s).reverse,
+    nbrs := fun s j => (s.neighbors j).reverse,
+    pipes := fun s j n => ((s.between j n).map (·.name)).reverse }
+
 /-! ### executable form of the skeletonization promises (the oracle the driver applies to the IMPLEMENTATION's output) -/
 
 /-- tanks, reservoirs, excluded / control-referenced junctions; pumps, valves, excluded / control-referenced pipes -/
